@@ -1,6 +1,9 @@
 """C02 — a snapshot is never a mixture of two published records."""
-from . import shm
-from .common import finish
+import json
+import os
+
+from . import daemon, sandbox, shm
+from .common import VERIF, finish
 
 
 def run(ctx):
@@ -14,6 +17,40 @@ def run(ctx):
     pagg, pviol = shm.run_proc(ctx, 8 if q else 120)
     ctx.log("proc: %s" % pagg)
     viol += [v for v in pviol if v["sig"] in ("proc-torn-snapshot", "proc-torn-or-error", "proc-unpublished", "reader-crashed", "reader-died", "reader-process-died")]
+    # The daemon's own ways of stopping: (1) a new incarnation over a segment left mid-update, stopped
+    # after 0..3 outcomes; (2) the real (hooked) binary receiving signals or losing a worker, with
+    # the single-writer monitor on.
+    db = daemon.build(ctx)
+    sparts = ctx.run_shards(db, ["c02stop", "--seed", str(ctx.seed)], 4, 600)
+    stop_cov = {"evaluations": 0, "results": {}}
+    viol += shm.crash_violations(sparts)
+    for p in sparts:
+        if p is None or p.get("_crashed"):
+            continue
+        stop_cov["evaluations"] += p["evaluations"]
+        for k, v in p["results"].items():
+            stop_cov["results"][k] = stop_cov["results"].get(k, 0) + v
+        viol += p["violations"]
+    ctx.log("daemon stopped over a half-written segment: %s" % stop_cov)
+    sig_cov = {"runs": 0, "published": 0}
+    if sandbox.available():
+        hooked = os.path.join(ctx.build_repo(["clock-bound-d"], release=False, features=["verif-hooks"]), "clockbound")
+        specs = ["", "SIGTERM", "SIGINT", "SIGHUP", "SIGUSR1", "SIGUSR2", "SIGQUIT", "SIGALRM", ":poller.loop:2:panic", ":writer.recv:2:return", "SIGTERM:poller.recv:3:panic"]
+        cmds, outs = [], []
+        for i, sp in enumerate(specs):
+            o = os.path.join(ctx.tmp, "c02stop-%d.json" % i)
+            outs.append(o)
+            cmds.append(sandbox.wrap(["python3", os.path.join(VERIF, "vlib", "nsrun.py"), "c02stop", hooked, o, sp]))
+        for (rc, text), o in zip(ctx.run_parallel(cmds, 120), outs):
+            if rc != 0 or not os.path.exists(o):
+                ctx.log("c02stop run lost rc=%s %s" % (rc, text[-200:]))
+                continue
+            for r in json.load(open(o)):
+                sig_cov["runs"] += 1
+                sig_cov["published"] += bool(r["published"])
+                if r["single_writer_reports"]:
+                    viol.append({"sig": "two-writers-in-the-daemon", "detail": "the daemon (signal %s, failpoint %s) had more than one ShmWriter alive at once: %s — the seqlock protocol has exactly one writer; two threads writing the segment can publish a blend under an even generation" % (r["signal"] or "none", r["failpoint"], r["single_writer_reports"][0]), "replay": ""})
+    ctx.log("whole daemon under signals / worker deaths, single-writer monitor: %s" % sig_cov)
     inconclusive = None
     if cov["overlapped_calls"] < 1000 or magg["publication_changes_seen"] < 100 or magg["nondefault_snapshots"] < 500:
         inconclusive = "monitors observed too little (overlapped calls %d, miri publication changes %d)" % (cov["overlapped_calls"], magg["publication_changes_seen"])
@@ -29,6 +66,8 @@ def run(ctx):
         "sched": cov,
         "miri": dict(magg, processes_lost=lost),
         "proc": pagg,
+        "daemon_stopped_over_half_written_segment": stop_cov,
+        "whole_daemon_single_writer_monitor": sig_cov,
         "exhaustive": False,
     }
     finish(ctx, coverage, viol, inconclusive, assumptions=[
